@@ -253,8 +253,11 @@ package quickfix
 //@   pure
 //@ iface FieldWriter.Tag(recv)
 //@   pure
+// the tag of a group writer is a function of the writer (every call returns the same tag): assumed
+//@ uspec gwtag(w FieldGroupWriter) Tag
 //@ iface FieldGroupWriter.Tag(recv)
 //@   pure
+//@   ensures result == gwtag(recv)
 //@ iface FieldGroupWriter.Write(recv)
 //@   pure
 //@ iface FieldGroupReader.Tag(recv)
@@ -501,9 +504,13 @@ package quickfix
 //@   requires fmsafe(m) && field != nil
 //@   modifies *
 
+// SetGroup: the tag enters the order list only if it is not there yet (the order list never holds a tag twice)
 //@ func (m *FieldMap) SetGroup [C10,C13]
 //@   requires fmsafe(m) && field != nil
-//@   modifies *
+//@   modifies m.tags, m.tags[*], m.tagLookup[*], fresh E.quickfix.Tag
+//@   ensures @present has(m.tagLookup, gwtag(field))
+//@   ensures @others forall t Tag :: t != gwtag(field) ==> (has(m.tagLookup, t) <==> old(has(m.tagLookup, t))) && m.tagLookup[t] == old(m.tagLookup[t])
+//@   ensures @order old(fmorder(m)) ==> fmorder(m)
 
 //@ func (m *FieldMap) CopyInto [C10]
 //@   typedheap
